@@ -65,7 +65,8 @@ func (r *Reflog) load(rootGoitPath string, head *Head, refs *Refs) error {
 		} else {
 			hash, err := sha.ReadHash(sp1[1])
 			if err != nil {
-				return fmt.Errorf("fail to read hash %s: %w", sp1[1], err)
+				// not a record line
+				continue
 			}
 			record.Hash = hash
 
@@ -80,11 +81,12 @@ func (r *Reflog) load(rootGoitPath string, head *Head, refs *Refs) error {
 		}
 
 		// extract recType
-		sp2 := strings.Split(sp1[2], "\t")
+		// message can contain tab and ": ", so split only at the first one
+		sp2 := strings.SplitN(sp1[2], "\t", 2)
 		if len(sp2) != 2 {
 			continue
 		}
-		sp3 := strings.Split(sp2[1], ": ")
+		sp3 := strings.SplitN(sp2[1], ": ", 2)
 		if len(sp3) != 2 {
 			continue
 		}
